@@ -1363,21 +1363,34 @@ fn build_moov_box(
     metadata: Option<&Metadata>,
 ) -> Vec<u8> {
     // Calculate duration in media timescale, then convert to movie timescale (ms)
-    let video_duration_media = video_tables.total_duration();
-    let video_duration_ms =
-        (video_duration_media * MOVIE_TIMESCALE as u64 / MEDIA_TIMESCALE as u64) as u32;
+    let to_movie_units =
+        |media: u64| (media * MOVIE_TIMESCALE as u64 / MEDIA_TIMESCALE as u64) as u32;
+    let video_duration_ms = to_movie_units(video_tables.total_duration());
+    let audio_duration_ms = audio
+        .as_ref()
+        .map(|(_, tables)| to_movie_units(tables.total_duration()))
+        .unwrap_or(0);
+    // The movie lasts as long as its longest track.
+    let movie_duration_ms = video_duration_ms.max(audio_duration_ms);
 
     // next_track_ID must be larger than every track ID in use (video = 1, audio = 2)
     let next_track_id = if audio.is_some() { 3 } else { 2 };
-    let mvhd_payload = build_mvhd_payload(video_duration_ms, next_track_id);
+    let mvhd_payload = build_mvhd_payload(movie_duration_ms, next_track_id);
     let mvhd_box = build_box(b"mvhd", &mvhd_payload);
-    let trak_box = build_trak_box(video, video_tables, video_config, metadata);
+    let trak_box = build_trak_box(
+        video,
+        video_tables,
+        video_config,
+        metadata,
+        video_duration_ms,
+    );
 
     let mut payload = Vec::new();
     payload.extend_from_slice(&mvhd_box);
     payload.extend_from_slice(&trak_box);
     if let Some((audio_track, audio_tables)) = audio {
-        let audio_trak = build_audio_trak_box(audio_track, audio_tables, metadata);
+        let audio_trak =
+            build_audio_trak_box(audio_track, audio_tables, metadata, audio_duration_ms);
         payload.extend_from_slice(&audio_trak);
     }
 
@@ -1396,8 +1409,9 @@ fn build_audio_trak_box(
     audio: &Mp4AudioTrack,
     tables: &SampleTables,
     metadata: Option<&Metadata>,
+    duration_ms: u32,
 ) -> Vec<u8> {
-    let tkhd_box = build_audio_tkhd_box();
+    let tkhd_box = build_audio_tkhd_box(duration_ms);
     let mdia_box = build_audio_mdia_box(audio, tables, metadata);
 
     let mut payload = Vec::new();
@@ -1406,8 +1420,8 @@ fn build_audio_trak_box(
     build_box(b"trak", &payload)
 }
 
-fn build_audio_tkhd_box() -> Vec<u8> {
-    build_tkhd_box_with_id(2, 0x0100, 0, 0)
+fn build_audio_tkhd_box(duration_ms: u32) -> Vec<u8> {
+    build_tkhd_box_with_id(2, 0x0100, 0, 0, duration_ms)
 }
 
 fn build_audio_mdia_box(
@@ -1632,8 +1646,9 @@ fn build_trak_box(
     tables: &SampleTables,
     video_config: &VideoConfig,
     metadata: Option<&Metadata>,
+    duration_ms: u32,
 ) -> Vec<u8> {
-    let tkhd_box = build_tkhd_box(video);
+    let tkhd_box = build_tkhd_box(video, duration_ms);
     let mdia_box = build_mdia_box(video, tables, video_config, metadata);
 
     let mut payload = Vec::new();
@@ -2265,18 +2280,25 @@ fn build_smhd_box() -> Vec<u8> {
     build_box(b"smhd", &payload)
 }
 
-fn build_tkhd_box(video: &Mp4VideoTrack) -> Vec<u8> {
-    build_tkhd_box_with_id(1, 0, video.width, video.height)
+fn build_tkhd_box(video: &Mp4VideoTrack, duration_ms: u32) -> Vec<u8> {
+    build_tkhd_box_with_id(1, 0, video.width, video.height, duration_ms)
 }
 
-fn build_tkhd_box_with_id(track_id: u32, volume: u16, width: u32, height: u32) -> Vec<u8> {
+fn build_tkhd_box_with_id(
+    track_id: u32,
+    volume: u16,
+    width: u32,
+    height: u32,
+    duration_ms: u32,
+) -> Vec<u8> {
     let mut payload = Vec::new();
     payload.extend_from_slice(&0u32.to_be_bytes());
     payload.extend_from_slice(&0u32.to_be_bytes());
     payload.extend_from_slice(&0u32.to_be_bytes());
     payload.extend_from_slice(&track_id.to_be_bytes());
+    payload.extend_from_slice(&0u32.to_be_bytes()); // reserved
+    payload.extend_from_slice(&duration_ms.to_be_bytes()); // duration (movie timescale)
     payload.extend_from_slice(&0u32.to_be_bytes());
-    payload.extend_from_slice(&0u64.to_be_bytes());
     payload.extend_from_slice(&0u64.to_be_bytes());
     payload.extend_from_slice(&0u16.to_be_bytes());
     payload.extend_from_slice(&0u16.to_be_bytes());
